@@ -424,8 +424,8 @@ func genFields(t *rapid.T, n int, prefix string, nServers int, base int) []modbu
 			out = append(out, f) // duplicated definition (same name)
 		}
 		if rapid.IntRange(0, 5).Draw(t, "neardup") == 0 {
-			if nd := fgen.NearDuplicate(t, f, fmt.Sprintf("%s%dn", prefix, i)); int(nd.Address)+fgen.Size(nd) <= 65536 {
-				out = append(out, nd) // (domain: spans do not cross address 65535)
+			if nd := fgen.NearDuplicate(t, f, fmt.Sprintf("%s%dn", prefix, i)); int(nd.Address)+fgen.Size(nd) <= 65536 && fgen.Size(nd) <= 125 {
+				out = append(out, nd) // (domain: a span fits one request and does not cross address 65535)
 			}
 		}
 	}
